@@ -241,7 +241,7 @@ func c47FragmentBytes(maxLen int) {
 // ... '?') starts the AKE (toSend non-empty, no output); "?OTR:" ... "." framing with invalid
 // base64 or a short/foreign payload is an error; anything else is passed through as plaintext
 // unchanged. DH commit/key generation is stubbed (opaque bytes).
-func Verif_C47_Receive() { c47Receive(10) }
+func Verif_C47_Receive() { c47Receive(8) }
 
 // Verif_C47_ReceiveT: up to 13 symbolic bytes.
 func Verif_C47_ReceiveT() { c47Receive(13) }
